@@ -1781,3 +1781,8 @@ TABLE["C12"] += [
     B("matlab-files-joined-line-by-line", {"L7"}, (MW, "                content += f.read() + \"\\n\"", "                content += \"\\n\".join(f.read().splitlines()) + \"\\n\"")),
     B("module-text-rewritten-before-parsing", {"L7"}, (IP + "module.py", "        return Module.rule.parseString(s)[0]", "        s = s.replace('\\t', ' ')\n        return Module.rule.parseString(s)[0]")),
 ]
+TABLE["C10"] += [
+    B("static-block-returns-early-without-static-methods", {"T17"},
+      (MW, "        for static_method in static_methods:\n            format_name = list(static_method[0].name)", "        if not static_methods:\n            return method_text\n\n        for static_method in static_methods:\n            format_name = list(static_method[0].name)")),
+    N("namespace-registered-only-if-already-filled", (MW,      # nothing is appended to the list after this point on the pinned tree: same files "        if inner_namespace:\n            self.content.append(inner_namespace_scope)", "        if inner_namespace and inner_namespace_scope:\n            self.content.append(inner_namespace_scope)")),
+]
